@@ -39,6 +39,7 @@ type FuncInfo struct {
 	Used       []string `json:"assumptions_used,omitempty"`
 	Callees    []string `json:"callee_contracts_used,omitempty"`
 	PureCalls  []string `json:"inferred_pure_callees,omitempty"`
+	Inlined    []string `json:"inlined_callee_bodies,omitempty"`
 	HavocCalls []string `json:"havoced_calls,omitempty"`
 	Bounded    string   `json:"bounded,omitempty"`
 	Error      string   `json:"error,omitempty"`
@@ -227,6 +228,7 @@ func (g *Gen) newCtx(fn *ssa.Function, fc *FuncContract, mode Mode) *FnCtx {
 	c.used = map[string]bool{}
 	c.usedContracts = map[string]bool{}
 	c.usedPure = map[string]bool{}
+	c.usedInlined = map[string]bool{}
 	c.havocCalls = map[string]int{}
 	c.watch = map[string]bool{}
 	c.termSorts = map[string]string{}
@@ -354,6 +356,7 @@ func (g *Gen) verifyFunc(fn *ssa.Function, fc *FuncContract) (obs []*Obligation,
 	info.Used = sortedKeys(c.used)
 	info.Callees = sortedKeys(c.usedContracts)
 	info.PureCalls = sortedKeys(c.usedPure)
+	info.Inlined = sortedKeys(c.usedInlined)
 	for k, n := range c.havocCalls {
 		info.HavocCalls = append(info.HavocCalls, fmt.Sprintf("%s x%d", k, n))
 	}
